@@ -496,7 +496,7 @@ def run_property(prop, P, tier, seed, modname, timeout=None, jobs=None, keep=Fal
     timeout = timeout or getattr(P, 'TIMEOUT', {}).get(tier) or (20 if tier == 'quick' else 300)
     os.environ['XV_TIER'] = tier       # inherited by the worker processes
     work = tempfile.mkdtemp(prefix='xv_%s_' % prop)
-    replay_root = os.path.join(VERIF, 'replays', prop)
+    replay_root = os.path.join(os.environ.get('XV_REPLAY_ROOT') or os.path.join(VERIF, 'replays'), prop)
     shutil.rmtree(replay_root, ignore_errors=True)
     try:
         kernels = P.kernels(tier, seed)
